@@ -24,7 +24,7 @@ def x_obligations(tier):
     for si, (conf, pre, suf, base) in enumerate(SKEL):
         env0 = {"VF_CONF": conf, "VF_PRE": pre, "VF_SUF": suf, "VF_BASE": base, "MINI_VDIGITS": "3"}
         for di, dp in enumerate(dps):
-            if tier == "quick" and (si + di) % 2 and dp not in ("99",):
+            if tier == "quick" and (si + di) % 2 and dp not in ("99",) and not (pre == "h/a/v091x/" and dp == "09"):
                 continue
             o.append(Obl(f"C18-next[{conf},{pre}v{dp}?{suf}]", M, "next_of", env=dict(env0, VF_DP=dp), timeout=T, family="C18-next",
                          bound=f"Sid {pre}v{dp}<d>{suf}, last digit d symbolic; configuration {conf}"))
